@@ -63,13 +63,33 @@ func isSetCookie(c Combo, name string) bool {
 //	   (HTTP field values cannot carry it: tallied, not decided).
 //
 // A value containing a row separator that is accepted and comes back
-// different is the signature "ambiguous-silently-changed".
-func decide(c Combo, name string, v Value, typed []any) (t Trip, vd Verdict) {
+// different is the rule "ambiguous-silently-changed".
+//
+// Parameter names outside [A-Za-z][A-Za-z0-9_-]* are not quantified by the
+// property (no RFC 6570 varname / HTTP token): there only R0 decides, what
+// the other rules would have said is tallied under name_special/.
+func decide(c Combo, name string, v Value, typed []any) (Trip, Verdict) {
+	t, vd := decidePlain(c, name, v, typed)
+	if plainName(name) {
+		return t, vd
+	}
+	if vd.Sig != "" {
+		if strings.HasSuffix(vd.Sig, "-panic") {
+			return t, vd
+		}
+		i := strings.LastIndexByte(vd.Sig, '/')
+		vd.Tally, vd.Sig, vd.Rule = "name_special/would_be:"+vd.Sig[i+1:], "", ""
+		return t, vd
+	}
+	vd.Tally = "name_special/" + vd.Tally
+	return t, vd
+}
+
+func decidePlain(c Combo, name string, v Value, typed []any) (t Trip, vd Verdict) {
 	t = roundTrip(c, name, v)
 	base := c.String()
-	kind := v.Kind
+	kind, isMap := kindOf(c.Shape)
 	row := rowOf(c.Loc, c.Style, c.Explode, kind)
-	plain := plainName(name)
 	mem := v.members()
 	empt := v.hasEmptiness()
 	rowDel := containsAny(mem, row.delims(kind))
@@ -78,19 +98,21 @@ func decide(c Combo, name string, v Value, typed []any) (t Trip, vd Verdict) {
 		vd.Sig, vd.Rule = base+"/"+rule, text
 	}
 	ref, hasRef := refEncode(c.Loc, c.Style, c.Explode, name, v)
-	if hasRef {
-		t.WireCanon = ""
-	}
 
+	// ---- R0/R1: encoder
 	if t.EncPanic != "" {
+		if kind == "object" && len(v.Fields) == 0 && len(v.Unset) == 0 && strings.Contains(t.EncPanic, "encoder was not called") {
+			// one defect, independent of style and explode: collapse the signature
+			vd.Sig = c.Loc + "/*/object/empty-object-encoder-panic"
+			vd.Rule = "no admitted combination makes the encoder panic (object or map without members: EncodeURI calls nothing, Result() panics)"
+			return
+		}
 		viol("encoder-panic", "no admitted combination makes the encoder panic")
 		return
 	}
 	if t.EncErr != "" {
 		vd.Refused = true
 		switch {
-		case !plain:
-			vd.Tally = "name_special/refused"
 		case empt:
 			vd.Tally = "refused/empty_member"
 		case rowDel:
@@ -113,13 +135,10 @@ func decide(c Combo, name string, v Value, typed []any) (t Trip, vd Verdict) {
 			}
 		}
 	}
+	// ---- transport
 	if t.Transport != "" {
 		if c.Loc == "header" && (!isToken(name) || !allTransportable(mem)) {
 			vd.Tally = "transport/header_not_transportable"
-			return
-		}
-		if !plain {
-			vd.Tally = "name_special/transport_refused"
 			return
 		}
 		viol("wire-unparseable", "what the encoder produced can be transmitted and parsed by net/http")
@@ -128,11 +147,13 @@ func decide(c Combo, name string, v Value, typed []any) (t Trip, vd Verdict) {
 	if t.wireOK {
 		t.WireCanon = t.wire.Canon()
 	}
+	// ---- R2: wire
 	owsClass := c.Loc == "header" && hasRef && hasOuterBlank(ref.Text)
-	if hasRef && plain && !empt && !owsClass {
+	setCookieArr := isSetCookie(c, name) && kind == "array"
+	if hasRef && !empt && !owsClass {
 		if !t.wireOK || t.wire.Canon() != ref.Canon() {
-			if isSetCookie(c, name) && kind == "array" {
-				// RFC 6265 §3 forbids folding Set-Cookie; one field line per item is HTTP's rule, not a defect.
+			if setCookieArr {
+				// RFC 6265 §3 forbids folding Set-Cookie; one field line per item is HTTP's rule.
 				vd.Tally = "header_set_cookie_unfolded"
 			} else {
 				viol("wire-mismatch", "the wire form equals the reference serialization after percent-unescaping")
@@ -140,19 +161,9 @@ func decide(c Combo, name string, v Value, typed []any) (t Trip, vd Verdict) {
 			}
 		}
 	}
+	// ---- R0/R3: decoder
 	if t.DecPanic != "" {
 		viol("decoder-panic", "no admitted combination makes the decoder panic")
-		return
-	}
-	if !plain {
-		switch {
-		case t.DecErr != "":
-			vd.Tally = "name_special/decode_error"
-		case t.Decoded.Equal(v):
-			vd.Tally = "name_special/exact"
-		default:
-			vd.Tally = "name_special/changed"
-		}
 		return
 	}
 	if owsClass {
@@ -166,10 +177,15 @@ func decide(c Combo, name string, v Value, typed []any) (t Trip, vd Verdict) {
 		}
 		return
 	}
+	explodedMap := c.Loc == "query" && isMap && hasRef && row.delims(kind) == ""
 	if t.DecErr != "" {
 		switch {
 		case empt:
 			vd.Tally = "tolerated/empty_decode_error"
+		case setCookieArr:
+			vd.Sig, vd.Rule = "header/simple/array/set-cookie-array-not-inverse", "the decoder recovers the array the encoder spread over several Set-Cookie field lines"
+		case explodedMap:
+			vd.Sig, vd.Rule = "query/exploded-object/map/not-decodable", "the decoder recovers a map (additionalProperties) sent as exploded key=value pairs (the generated decoding config lists no properties, so nothing is looked up)"
 		case rowDel:
 			viol("ambiguous-not-refused-decode-error", "a value containing the row's separator is refused by the encoder (here it was accepted and the decoder then failed)")
 		case styDel:
@@ -182,11 +198,13 @@ func decide(c Combo, name string, v Value, typed []any) (t Trip, vd Verdict) {
 	d := *t.Decoded
 	if d.Equal(v) {
 		vd.Exact = true
-		vd.Tally = "exact"
-		if rowDel {
-			vd.Tally = "exact/with_row_delimiter_in_unambiguous_position"
-		} else if empt {
-			vd.Tally = "exact/with_empty_member"
+		if vd.Tally == "" {
+			vd.Tally = "exact"
+			if rowDel {
+				vd.Tally = "exact/with_row_delimiter_in_unambiguous_position"
+			} else if empt {
+				vd.Tally = "exact/with_empty_member"
+			}
 		}
 		if typed != nil {
 			texts := d.members()
@@ -199,13 +217,17 @@ func decide(c Combo, name string, v Value, typed []any) (t Trip, vd Verdict) {
 		}
 		return
 	}
+	sameSerialization := hasRef && refCanon(c.Loc, c.Style, c.Explode, name, d) == refCanon(c.Loc, c.Style, c.Explode, name, v)
 	switch {
-	case isSetCookie(c, name) && kind == "array" && !rowDel && !empt:
-		viol("set-cookie-items-lost", "the decoder recovers the array the encoder spread over several Set-Cookie field lines")
+	case setCookieArr && !(empt && sameSerialization):
+		vd.Tally = ""
+		vd.Sig, vd.Rule = "header/simple/array/set-cookie-array-not-inverse", "the decoder recovers the array the encoder spread over several Set-Cookie field lines"
+	case explodedMap && !(empt && sameSerialization):
+		vd.Sig, vd.Rule = "query/exploded-object/map/not-decodable", "the decoder recovers a map (additionalProperties) sent as exploded key=value pairs"
 	case rowDel:
 		viol("ambiguous-silently-changed", "a value containing the row's separator is refused by the encoder (here it was accepted and decoded to a different value)")
 	case empt:
-		if hasRef && refCanon(c.Loc, c.Style, c.Explode, name, d) == refCanon(c.Loc, c.Style, c.Explode, name, v) {
+		if sameSerialization {
 			vd.Tally = "tolerated/empty_other_preimage"
 		} else {
 			viol("empty-member-changed", "a value of the emptiness class decodes to a value with the same serialization, or to an error")
